@@ -5,7 +5,7 @@
    arbitrary Check/Process failure oracles fc/fp (which may depend on the whole log so far). *)
 From Coq Require Import NArith List.
 From LV Require Import model.Buffer spec.BufferSpec proofs.BufferInv proofs.BufferTheorems proofs.BufferOld
-  proofs.BufferComplete2.
+  proofs.BufferComplete2 proofs.BufferSpecProofs.
 Import ListNotations.
 Local Open Scope N_scope.
 
@@ -49,6 +49,13 @@ Proof. exact T4_push_reports_total. Qed.
 
 Theorem C14_fuel_suffices : forall fc fp limN limS ops, oof (final fc fp limN limS ops) = false.
 Proof. exact fuel_suffices. Qed.
+
+(* the executable checkers the driver evaluates on the implementation's log accept every
+   history of the model (T1 and T2 clauses) *)
+Theorem C14_model_passes_checkers_T1_T2 : forall fc fp limN limS ops,
+  t1_walk (copies_of ops) [] (hist fc fp limN limS ops) = true
+  /\ t2_walk [] [] (hist fc fp limN limS ops) = true.
+Proof. exact model_passes_t1_t2. Qed.
 
 (* T5 completeness: the limits cannot bind, Check/Process never fail, the pushed events are
    distinct and form a parents-closed DAG (a rank decreasing along parent edges exists).  Then for
@@ -121,3 +128,4 @@ Print Assumptions C14_T4_within_limits.
 Print Assumptions C14_T4_push_reports_total.
 Print Assumptions C14_fuel_suffices.
 Print Assumptions C14_T5_complete.
+Print Assumptions C14_model_passes_checkers_T1_T2.
